@@ -10,7 +10,10 @@ PER_CASE_TIMEOUT = 15.0
 AUTHORITY = ("C04_fn (coq/props/C04.v): the substituted function denotes the original under the simultaneous substitution; "
              "C04_deps_*: the dependency pass yields a state extending the given one in which every dependent variable has the "
              "value of its function, independent of the fuel; C04_deps_order_free: any reordering of the dependency map gives the "
-             "same values; C04_deps_fails_iff: failure <=> no evaluation order exists (cycle / missing value)")
+             "same values; C04_deps_fails_iff: failure <=> no evaluation order exists (cycle / missing value); C04_instance / "
+             "C04_instance_chain: after Instance::substitute (one map or two successive ones) the evaluation reports every replaced "
+             "variable with the value of its replacement and objective / constraints with the values of the ORIGINAL functions at "
+             "the reported state; C04_penalty_path: the same for the reported state after a penalty conversion and with_parameters")
 RULE = ("fn_substitute: functions of degree <= 3 in every representation, 0-4 replacements of degree <= 2 that may mention "
         "replaced variables, unset replacement (panic); inst_substitute: one-step and two-step (chain) substitutions of used "
         "variables by functions of the remaining ones, then evaluation at an in-bound state over the remaining variables "
